@@ -68,6 +68,14 @@ CHECKS = {
              "in DAG order and the returned keys are exactly the persistent assignments (or all). Complete for N=3 (quick; N=4 thorough).",
         note="Stubs (part of the claim): conn.execute, load_datapoints_duckdb, register_dataframes, fetch_result, initialize_time_types record events and never fail. Trusted: CrossHair.",
         ref="3 C13"),
+    "C16": dict(
+        technique="CrossHair symbolic execution of the real configured_connection / execute_queries with fault-injecting stubs; the crash point is a symbolic integer",
+        category="model_checking",
+        text="Partial. The real configured_connection, create_configured_connection, configure_duckdb_connection and execute_queries run against stubs for duckdb.connect, Path.mkdir, "
+             "shutil.rmtree, uuid, conn.execute/create_function, loads and fetches; a symbolic k selects which external call raises. For every k (and no fault) the event log must show the "
+             "session directory removed and the connection closed, and the fault must propagate. 'Confirmed over all paths' required. Faults inside DuckDB, real files and multi-fault runs are outside.",
+        note="Stubs are part of the claim (each may raise once; close/rmtree do not fail). Trusted: CrossHair.",
+        ref="3 C16"),
     "C30": dict(
         technique="CrossHair symbolic execution of the real set_decimal_config/_parse_env_value with the environment as symbolic integers",
         text="Partial. Decides, for every integer -5..45 (and 'not defined') of both variables at once, that a setting is accepted exactly when documented, "
